@@ -524,6 +524,10 @@ def _run_check(module, tier, seed, workers=None, runs=None, verify_replay=True):
         else:
             new.append((cls, key, g))
 
+    if os.environ.get('VERIF_LIST_ALL'):
+        for cls, key, g in new:
+            print('GROUP cls=%s key=%s runs=%d :: %s' % (cls, key, g['count'], g['msg'][:160]))
+        return 1 if new else 0
     rc = 0
     n_viol = 0
     for cls, key, g in new[:getattr(module, 'MAX_REPORTS', 6)]:
